@@ -339,18 +339,28 @@ CLAIMED["C19"] = {
             "node keeps >= outbound+inbound fee floored at 0 and >= its delta; fee/CLTV limits, outgoing-channel, last-hop, "
             "ignore restrictions; payload fits), newRoute's amounts and time locks add up to its totals, every "
             "forwarding hop of an accepted route passes the C09 forwarding rule (Policy model, machine and spec), "
-            "getEdge soundness, and the relaxation invariant: any route built from accepted processEdge relaxations "
-            "passes the checker. Tie: real findPath + newRoute + edgeUnifier.getEdge on seeded multigraphs with "
-            "boundary-directed variants (every limit at exactly the needed value +-1); every returned route is checked "
-            "by route_valid, compared with the model's new_route and relax replay (vm_compute), and by an independent "
-            "python predicate incl. the real sphinx payload size.",
-    "note": "Chain stability (a popped entry is never rewritten) is argued in notes/C19.md, not proved (needs "
-            "probabilities <= 1 and amt*delta*15 < 2^63); it is what the per-route checker run guards. Optimality and "
-            "probability not claimed. Blinded tails and Go integer wrap outside the model (amounts <= 10^11 msat "
-            "generated). Payload sizes are an oracle measured on the real sphinx path. Trusted: Coq kernel, harness, "
-            "python predicate.",
-    "technique": "Coq proof (induction over paths, fold invariants, link to the C09 model) + differential harness on "
-                 "real findPath/newRoute/getEdge + predicate on every returned route",
+            "getEdge soundness, and the relaxation invariant. The search loop is modelled as well (Route/Dijkstra.v: "
+            "distance map, heap as 'pop any minimal entry w.r.t. distanceHeap.Less', processEdge with Go int64 "
+            "edgeWeight, improvement test, source never expanded, chain unravelling) and it is proved for every run "
+            "(C19_chain_stable, C19_pops_sorted) that a popped entry is never rewritten or re-pushed and pops are "
+            "key-sorted, hence (C19_findpath_sound / C19_findpath_route_ok) the route newRoute builds from the chain "
+            "findPath returns passes the checker and every clause of the property. Tie: real findPath + newRoute + "
+            "edgeUnifier.getEdge on seeded multigraphs with boundary-directed variants; every returned route is checked "
+            "by route_valid, compared with the model's new_route and relax replay; the finalisation order and every "
+            "processEdge call of ~2800 (thorough 17k) real searches are replayed on the Dijkstra model with real float64 "
+            "(Coq primitive floats) incl. the unravelled chain; independent python predicates (every clause on the real "
+            "route incl. the real sphinx payload size; no node expanded twice, route amounts are validated amounts, "
+            "termination).",
+    "note": "The chain-stability theorems hold under explicit guards: probability answers in [0,1], amt*delta*15 and "
+            "accumulated weight < 2^63, unsigned policy fields; and they assume keyops_ok = monotone IEEE float64 "
+            "arithmetic (a hypothesis, proved for an exact instance and checked on every replayed step). Outside the "
+            "guards two _refuted examples show a finalised entry being rewritten; the int64 one was reproduced on real "
+            "code at ~100 BTC / delta 65535 (domain boundary, not listed as a finding). Optimality and probability not "
+            "claimed. Blinded tails outside the model; payload sizes are an oracle measured on the real sphinx path. "
+            "Trusted: Coq kernel (primitive floats only in the replay file, in no theorem), harness, python predicate.",
+    "technique": "Coq proof (induction over paths, fold invariants, invariant over a nondeterministic transition system "
+                 "of the Dijkstra loop, link to the C09 model) + differential harness on real findPath/newRoute/getEdge "
+                 "with search-trace replay + predicate on every returned route",
 }
 
 CLAIMED["C17"] = {
